@@ -29,8 +29,13 @@ ASSUMPTIONS = [
     'relativeReference / DataReference.resolve) computes from the reference and the walked file system is checked inside '
     'Coq for every distinct reference of the run (check_dref); the real DataReference objects are compared with that model '
     'on a separate pool (check_value: every file part x method x producer of the pool)',
-    'ValueModel does not cover loopref / loopoutput, repeating producers (stream stdout), glob patterns or ".." in file '
-    'parts, symbolic links, non-ASCII file contents',
+    'ValueModel does not cover loopref / loopoutput, glob patterns or ".." in file parts, symbolic links, non-ASCII file '
+    'contents; repeating producers: 9 of the 24 producers repeat (workflowAttributes.repeatInterval; checked against the real '
+    'workflowAttributes), their streams directories are written by the harness (indices of different numbers of digits, streams '
+    'of the other type, none, no directory) and, in the sessions, by the real experiment.runtime.engine.archive_stream called as '
+    'RepeatingEngine calls it; a streams directory holds only names <digits>.<type> plus names glob / splitext discard (a name '
+    'like temp_3.stdout, which archive_stream leaves for an instant, makes int() of the code raise ValueError: outside the model); '
+    'consumers do not repeat themselves',
     'argument strings come with the tokenisation of the code\'s own recogniser (regular expression of '
     'FlowIR.discover_reference_strings); every generated string is checked against that expression',
     'literal text holds no %(variable)s references and no [index] accesses (FlowIR.fill_in is then the identity); on an '
@@ -58,6 +63,23 @@ PADDED = ['\n lead\n', 'trail \n\n', '\n', ' ', 'a\r\n', '\tt\n \n']   # content
 
 NAMES = ['A', 'B', 'AB', 'BA', 'AA', 'BB', 'ABA', 'BAB']
 STAGES = [0, 1, 2]
+# repeating producers (workflowAttributes.repeatInterval): RepeatingEngine archives the stdout of every execution as
+# <working dir>/streams/<n>.stdout (experiment.runtime.engine.archive_stream, the 5 newest are kept) and
+# `Producer:output` (no file part) is worth the contents of the stream with the greatest INTEGER n - not out.stdout.
+# (stage, name) -> names of the files in streams/ as the instance starts (None: no streams directory yet).  Indices
+# with different numbers of digits side by side (what the directory holds after the 11th-14th, 101st-104th ...
+# execution), directories about to get there (sessions execute the producers further), the streams of the other type.
+REPEATING = {
+    (0, 'AB'): ['6.stdout', '7.stdout', '8.stdout', '9.stdout', '10.stdout', '9.stderr', '10.stderr', '11.stderr'],
+    (0, 'BA'): None,
+    (0, 'ABA'): ['999.stdout', '1000.stdout'],
+    (1, 'B'): ['5.stdout', '6.stdout', '7.stdout', '8.stdout', '9.stdout'],
+    (1, 'BAB'): ['98.stdout', '99.stdout', '100.stdout', '101.stdout', '102.stdout'],
+    (1, 'ABA'): ['96.stdout', '97.stdout', '98.stdout', '99.stdout'],
+    (2, 'A'): ['9.stdout', '10.stdout', '20.stderr'],
+    (2, 'BB'): [],
+    (2, 'AB'): ['0.stdout'],
+}
 FILES = [None, 'o.txt', 'A', 'BA', 'missing.txt', 'e.txt']
 DATA = ['A', 'BA', 'x.txt', 'e.dat']
 CONTENTS = ['42', 'v1.0', 'x y', 'l1\n\n', '', 'see B:ref', 'A:ref', 'a\nb', 'path/to', '7', 'stage0.A:ref x', 'BA']
@@ -73,6 +95,22 @@ METHODS = ['copy', 'link', 'ref', 'copyout', 'extract', 'output', 'loopref', 'lo
 
 
 # ------------------------------------------------------------------ references (harness side knowledge)
+def stream_content(stage, name, fn):
+    """what the execution archived as streams/<fn> printed"""
+    idx, typ = fn.split('.')
+    if typ != 'stdout':
+        return 'warning %s of %s\n' % (idx, name)
+    if (stage, name) == (0, 'ABA'):
+        return SPECIALS[int(idx) % len(SPECIALS)]
+    return 'it %s E=-%d.%s%s' % (idx, 100 + stage, idx, ['\n', '', '\n\n'][(int(idx) + stage) % 3])
+
+
+def latest_stream(names):
+    """the archived stdout of the most recent execution: greatest index AS AN INTEGER (None: nothing archived)"""
+    idx = [int(fn.split('.')[0]) for fn in names or [] if fn.endswith('.stdout')]
+    return '%d.stdout' % max(idx) if idx else None
+
+
 def content_of(stage, name, fil):
     """contents of the files the harness writes in the producers' working directories / data folder"""
     if fil == 'missing.txt':
@@ -106,7 +144,13 @@ def r_value(r):
         return '/I/data/%s' % r['name']
     base = '/I/stages/stage%d/%s' % (r['stage'], r['name'])
     if r['method'] == 'output':
-        c = content_of(r['stage'], r['name'], r['file']) if r['file'] else STDOUT_OF.get(r['name'])
+        if r['file']:
+            c = content_of(r['stage'], r['name'], r['file'])
+        elif (r['stage'], r['name']) in REPEATING:
+            fn = latest_stream(REPEATING[(r['stage'], r['name'])])
+            c = None if fn is None else stream_content(r['stage'], r['name'], fn)
+        else:
+            c = STDOUT_OF.get(r['name'])
         return '' if c is None else c.rstrip('\n')
     return base + ('/' + r['file'] if r['file'] else '')
 
@@ -198,6 +242,8 @@ class Instance(object):
         for st in STAGES:
             for n in NAMES:
                 comps.append({'name': n, 'stage': st, 'command': {'executable': 'echo', 'arguments': 'hi'}})
+                if (st, n) in REPEATING:
+                    comps[-1]['workflowAttributes'] = {'repeatInterval': 1 + len(n)}
         for i, c in enumerate(cases):
             comps.append({'name': 'c%d' % i, 'stage': c['stage'],
                           'references': [d['declared_as'] for d in c['declared']],
@@ -230,6 +276,8 @@ class Instance(object):
                 os.makedirs(os.path.join(wd, 'sub'), exist_ok=True)
                 with open(os.path.join(wd, 'sub', 'o.txt'), 'w') as f:
                     f.write('sub')
+                if (st, n) in REPEATING:
+                    write_streams(wd, st, n, REPEATING[(st, n)])
 
     def close(self):
         shutil.rmtree(self.tmp, ignore_errors=True)
@@ -325,6 +373,12 @@ def gen_case(rng):
             name = rng.choice(pool)
             m = rng.choice(['ref'] * 7 + ['output'] * 2 + ['copy'])
             fil = rng.choice([None, None, None, 'o.txt', 'A', 'BA']) if m != 'output' else rng.choice(FILES[1:] + [None])
+            if m == 'output' and rng.random() < 0.3:
+                # the stdout of a producer (no file part); half of them of a repeating producer: its archived streams
+                fil = None
+                rep = [(s2, n2) for (s2, n2) in sorted(REPEATING) if s2 <= stage]
+                if rng.random() < 0.5:
+                    st, name = rng.choice(rep)
             if m == 'ref' and rng.random() < 0.12:
                 # path-valued references whose file part is not normalised: the value is the producer directory
                 # joined with the file part AS WRITTEN (trailing separator, './' segments kept)
@@ -393,6 +447,16 @@ def corpus():
                     o = mk_ref(st, n, fl, 'output', 1)
                     case(1, [o, B1], [('L', 'x '), ('T', r_abs(o)), ('L', ' '), ('T', 'B:ref')])
                     case(1, [B1, o], [('L', 'x '), ('T', r_abs(o)), ('L', ' '), ('T', 'B:ref')])
+    # F10d (fixed): the stdout of a repeating producer that has archived no stream yet (no streams directory: stage0.BA;
+    # an empty one: stage2.BB) is worth '' like any output that is not there yet - resolveArguments (and with it
+    # validateExperiment) died with AttributeError while building the DataReferenceFilesDoNotExistError
+    none0 = mk_ref(0, 'BA', None, 'output', 1)
+    case(1, [none0, B1], [('L', 'watch '), ('T', 'stage0.BA:output'), ('L', ' '), ('T', 'B:ref')])
+    none2 = mk_ref(2, 'BB', None, 'output', 2, relative=True)
+    case(2, [none2, none0], [('L', 'watch '), ('T', 'BB:output'), ('L', ' -p '), ('T', 'stage0.BA:output'), ('L', ' end')])
+    # a repeating producer after its 11th execution (streams 6..10) next to one after its 103rd (98..102)
+    case(1, [mk_ref(0, 'AB', None, 'output', 1), mk_ref(1, 'BAB', None, 'output', 1, relative=True)],
+         [('L', '--last '), ('T', 'stage0.AB:output'), ('L', ' --mine '), ('T', 'BAB:output')])
     # the non-vacuity example of Property.v
     o = mk_ref(0, 'B', 'o.txt', 'output', 1)
     cp = mk_ref(None, 'x.txt', None, 'copy', 1)
@@ -420,6 +484,27 @@ def special_contents_cases():
     return out
 
 
+def stream_cases():
+    """systematic: every repeating producer (streams directories holding indices of different numbers of digits, a single
+    stream, none, no directory, streams of the other type) x every consumer stage that may read it x every spelling the
+    loader accepts: `Producer:output` written twice next to a directory reference to the same producer and the stdout
+    of a producer that does not repeat"""
+    out = []
+    for (st, n) in sorted(REPEATING):
+        for stage in (1, 2):
+            if st > stage:
+                continue
+            plain = mk_ref(stage, 'BB' if n != 'BB' else 'A', None, 'output', stage, relative=True)
+            d = mk_ref(st, n, None, 'ref', stage, relative=False)
+            for rel in ([False, True] if st == stage else [False]):
+                o = mk_ref(st, n, None, 'output', stage, relative=rel)
+                t = r_rel(o) if rel else r_abs(o)
+                out.append({'stage': stage, 'declared': [o, d, plain],
+                            'pieces': [['L', '--last '], ['T', t], ['L', ' --dir '], ['T', r_abs(d)], ['L', '/streams x='],
+                                       ['T', r_rel(plain)], ['L', ' again='], ['T', t]]})
+    return out
+
+
 def with_orders(case):
     """every declaration order of the case's references"""
     out = []
@@ -429,9 +514,9 @@ def with_orders(case):
 
 
 # ------------------------------------------------------------------ values (DataReference.resolve)
-def coq_sref(ident, relid, fil, method, direct, loc):
-    return '(mk_sref %s %s %s %s %s %s)' % (cstr(ident), cstr(relid), common.copt(fil, cstr), cstr(method),
-                                            cbool(direct), cstr(loc))
+def coq_sref(ident, relid, fil, method, direct, loc, repeating=False):
+    return '(mk_sref %s %s %s %s %s %s %s)' % (cstr(ident), cstr(relid), common.copt(fil, cstr), cstr(method),
+                                               cbool(direct), cstr(loc), cbool(repeating))
 
 
 def listing(inst, root):
@@ -461,8 +546,50 @@ def sref_of(inst, r):
         root = store.resolvePath(ident)
         return coq_sref(ident, relid, None, r['method'], True, inst.canon(root)), coq_fs(listing(inst, root))
     root = store.workingDirectoryForComponent(r['stage'], r['name'])
-    return (coq_sref('stage%d.%s' % (r['stage'], r['name']), r['name'], r['file'], r['method'], False, inst.canon(root)),
+    return (coq_sref('stage%d.%s' % (r['stage'], r['name']), r['name'], r['file'], r['method'], False, inst.canon(root),
+                     (r['stage'], r['name']) in REPEATING),
             coq_fs(listing(inst, root)))
+
+
+# shapes of a streams directory for the value correspondence: file names ('D:' = a directory of that name)
+STREAM_SHAPES = [None, [], ['0.stdout'], ['9.stdout', '10.stdout'], ['99.stdout', '100.stdout'], ['999.stdout', '1000.stdout'],
+                 ['5.stdout', '6.stdout', '7.stdout', '8.stdout', '9.stdout'],
+                 ['6.stdout', '7.stdout', '8.stdout', '9.stdout', '10.stdout'],
+                 ['9.stdout', '10.stdout', '11.stdout', '12.stdout', '13.stdout'],
+                 ['96.stdout', '97.stdout', '98.stdout', '99.stdout', '100.stdout'],
+                 ['3.stdout', '12.stderr', '20.stderr'], ['12.stderr'], ['2.stdout', '10.stdout', '1.stdout', '10.stderr'],
+                 ['007.stdout', '5.stdout'], ['007.stdout', '7.stdout', '5.stdout'], ['D:12.stdout', '3.stdout'],
+                 ['D:2.stdout', '30.stdout'], ['.50.stdout', '4.stdout'], ['8.stdout.bak', '4.stdout', '9.txt'],
+                 ['19.stdout', '2.stdout', '100000.stdout', '99999.stdout']]
+
+
+def write_streams(wd, stage, name, names):
+    """(re)creates <wd>/streams with the given file names (None: no directory)"""
+    sd = os.path.join(wd, 'streams')
+    shutil.rmtree(sd, ignore_errors=True)
+    if names is None:
+        return
+    os.makedirs(sd)
+    for fn in names:
+        if fn.startswith('D:'):
+            os.makedirs(os.path.join(sd, fn[2:]))
+        else:
+            with open(os.path.join(sd, fn), 'w') as f:
+                f.write(stream_content(stage, name, fn) if fn.count('.') == 1 and fn.split('.')[0].isdigit() else 'x %s\n' % fn)
+
+
+def stream_shapes(ctx):
+    shapes = list(STREAM_SHAPES)
+    for _ in range(16 if ctx.tier == 'quick' else 150):
+        lo = ctx.rng.choice([0, 3, 7, 8, 9, 10, 95, 97, 99, 100, 995, 998, 1000, 9996, 12345])
+        if ctx.rng.random() < 0.6:
+            idx = list(range(lo, lo + ctx.rng.choice([1, 2, 3, 5, 5])))            # what the engine leaves
+        else:
+            idx = sorted(set(lo + ctx.rng.randrange(0, 120) for _k in range(ctx.rng.choice([2, 3, 5, 8]))))
+        names = ['%d.stdout' % i for i in idx] + ['%d.stderr' % (i + 1) for i in idx if ctx.rng.random() < 0.4]
+        ctx.rng.shuffle(names)
+        shapes.append(names)
+    return shapes
 
 
 def value_pool(tier):
@@ -507,6 +634,40 @@ def explore_values(ctx, used_refs):
             terms.append(cpair(cpair(sr, fs), cpair(cpair(cstr(obj.absoluteReference), cstr(obj.relativeReference)), cstr(o))))
             meta.append((r, [obj.absoluteReference, obj.relativeReference, o]))
             ctx.count('value_' + (o[:1] if o.startswith('V') else o))
+        # which producers repeat: the real workflowAttributes against the harness' table
+        for st in STAGES:
+            for n in NAMES:
+                rep = bool(g.graph.nodes['stage%d.%s' % (st, n)]['componentSpecification'].workflowAttributes['isRepeat'])
+                if rep != ((st, n) in REPEATING):
+                    ctx.disagree([st, n], rep, (st, n) in REPEATING, 'C10 workflowAttributes.isRepeat of a producer vs the package written')
+        # the stdout of a repeating producer on many shapes of its streams directory
+        hosts = [(0, 'AB'), (1, 'BAB'), (2, 'A')]
+        try:
+            for k, shape in enumerate(stream_shapes(ctx)):
+                st, n = hosts[k % len(hosts)]
+                r = {'stage': st, 'name': n, 'file': None, 'method': 'output'}
+                write_streams(root_of(inst, r), st, n, shape)
+                obj = DataReference(r_rel(r), stageIndex=st) if k % 2 else DataReference(r_abs(r), stageIndex=2)
+                try:
+                    o = 'V' + inst.canon(obj.resolve(g))
+                except Exception as e:
+                    o = type(e).__name__
+                sr, fs = sref_of(inst, r)
+                terms.append(cpair(cpair(sr, fs), cpair(cpair(cstr(obj.absoluteReference), cstr(obj.relativeReference)), cstr(o))))
+                meta.append((dict(r, streams=shape), [obj.absoluteReference, obj.relativeReference, o]))
+                ctx.count('value_stream_shapes')
+                # the property on the implementation's output: the stdout of the most recent execution
+                want = latest_stream([fn[2:] if fn.startswith('D:') else fn for fn in (shape or [])
+                                      if (fn[2:] if fn.startswith('D:') else fn).split('.')[0].isdigit()])
+                if want is not None and shape and want in shape and \
+                        o != 'V' + stream_content(st, n, want).rstrip('\n'):
+                    ctx.fail({'stage': 2, 'declared': [dict(r, declared_as=r_abs(r))], 'pieces': [['T', r_abs(r)]],
+                              'streams': shape},
+                             'Producer:output of a repeating producer whose streams directory holds %r is worth %r, not the '
+                             'contents of %s' % (shape, o[:80], want), [])
+        finally:
+            for st, n in hosts:
+                write_streams(root_of(inst, {'stage': st, 'name': n}), st, n, REPEATING[(st, n)])
         bad = ctx.model_mismatches(HEADER_V, terms, 'check_value', chunk=300, name='values')
         for k, i in enumerate(bad):
             m = ctx.model_eval(HEADER_V, 'let c := %s in (s_abs (fst (fst c)), s_rel (fst (fst c)), '
@@ -549,6 +710,15 @@ def target_of(r):
     return r['file'] if r['file'] else 'out.stdout'
 
 
+def is_stream_ref(r):
+    """`Producer:output` without file part to a repeating producer: worth its most recent archived stdout"""
+    return r['stage'] is not None and r['method'] == 'output' and not r['file'] and (r['stage'], r['name']) in REPEATING
+
+
+def executed_text(stage, name, k, salt):
+    return 'run %s.%d of %s%s' % (salt, k, name, ['\n', '\n\n', ''][(k + stage) % 3])
+
+
 def gen_live_case(rng):
     """a consumer with at least one :output reference (most of them to another stage or to an input file: what a
     receiver is entitled to believe complete) + a schedule: between two resolutions the producers rewrite, create,
@@ -563,6 +733,8 @@ def gen_live_case(rng):
             continue
         if all(r['stage'] == c['stage'] for r in outs) and rng.random() < 0.7:
             continue
+        if not any(is_stream_ref(r) for r in outs) and rng.random() < 0.4:
+            continue                                     # more sessions that read a repeating producer
         break
     others = [r for r in c['declared'] if r['method'] != 'output' and r['stage'] is not None]
     steps = [[]]
@@ -572,7 +744,16 @@ def gen_live_case(rng):
             u = rng.random()
             r = rng.choice(outs)
             key = [r['stage'], r['name'], target_of(r)]
-            if u < 0.55:
+            if is_stream_ref(r) and u < 0.8:
+                if u < 0.6:
+                    # the producer is executed n more times (RepeatingEngine: out.stdout rewritten, then archived)
+                    muts.append(['execute', r['stage'], r['name'], 'streams', rng.choice([1, 1, 1, 2, 3, 6]),
+                                 '%x' % rng.randrange(4096)])
+                elif u < 0.7:
+                    muts.append(['write'] + key + [rng.choice(LIVE_NEW)])   # out.stdout of an execution under way: not the value
+                else:
+                    muts.append(['write', r['stage'], r['name'], 'streams/%d.stderr' % rng.choice([50, 500, 5000]), 'w\n'])
+            elif u < 0.55:
                 muts.append(['write'] + key + [rng.choice(LIVE_NEW)])
             elif u < 0.68:
                 muts.append(['delete'] + key)
@@ -587,7 +768,7 @@ def gen_live_case(rng):
             else:
                 muts.append(['write', r['stage'] if r['stage'] is not None else 0,
                              r['name'] if r['stage'] is not None else 'A', 'unrelated.txt', rng.choice(LIVE_NEW)])
-        steps.append([m[:5] if m[0] == 'write' else m[:4] for m in muts])
+        steps.append([m[:6] if m[0] == 'execute' else m[:5] if m[0] == 'write' else m[:4] for m in muts])
     c['live'] = steps
     return c
 
@@ -614,6 +795,27 @@ def live_corpus():
                'live': [[], [['write', None, 'x.txt', '', '-1.5\n'], ['write', 2, 'A', 'out.stdout', 'b\n']],
                         [['write', 0, 'BAB', 'out.stdout', 'C:\\new\\1 &\n']], [['delete', None, 'x.txt', '']],
                         [['write', None, 'x.txt', '', '7'], ['delete', 0, 'BAB', 'out.stdout']]]})
+    # repeating producers executed on: across the 9 -> 10 and 99 -> 100 boundaries (streams 5..9 and 96..99 at the start),
+    # from nothing (no streams directory; an empty one), far past the boundary; out.stdout of the execution under way and
+    # streams of the other type with greater indices are not the value
+    m1 = mk_ref(1, 'B', None, 'output', 2)
+    m2 = mk_ref(1, 'ABA', None, 'output', 2)
+    m3 = mk_ref(2, 'BB', None, 'output', 2, relative=True)
+    cs.append({'stage': 2, 'declared': [m1, m2, m3],
+               'pieces': [['L', '--last '], ['T', 'stage1.B:output'], ['L', ' e='], ['T', 'stage1.ABA:output'], ['L', ' mine='],
+                          ['T', 'BB:output'], ['L', ' again '], ['T', 'stage1.B:output']],
+               'live': [[], [['execute', 1, 'B', 'streams', 1, 'a'], ['execute', 1, 'ABA', 'streams', 1, 'a']],
+                        [['execute', 2, 'BB', 'streams', 1, 'b'], ['write', 1, 'B', 'out.stdout', 'half way']],
+                        [['execute', 1, 'B', 'streams', 3, 'c'], ['write', 1, 'ABA', 'streams/500.stderr', 'w']],
+                        [['execute', 1, 'B', 'streams', 1, 'd'], ['execute', 1, 'ABA', 'streams', 2, 'd']],
+                        [['execute', 2, 'BB', 'streams', 12, 'e']], []]})
+    m4 = mk_ref(0, 'BA', None, 'output', 1)
+    m5 = mk_ref(0, 'AB', None, 'output', 1)
+    cs.append({'stage': 1, 'declared': [m4, m5, mk_ref(0, 'BA', None, 'ref', 1)],
+               'pieces': [['T', 'stage0.BA:output'], ['L', ' in '], ['T', 'stage0.BA:ref'], ['L', '/streams then '],
+                          ['T', 'stage0.AB:output']],
+               'live': [[], [['execute', 0, 'BA', 'streams', 1, 'f']], [['execute', 0, 'BA', 'streams', 10, 'g']],
+                        [['execute', 0, 'AB', 'streams', 1, 'h']], [['execute', 0, 'BA', 'streams', 1, 'i']]]})
     return cs
 
 
@@ -623,6 +825,7 @@ class LiveFiles(object):
     def __init__(self, inst):
         self.inst = inst
         self.saved = {}
+        self.done = {}
 
     def path(self, m):
         root = root_of(self.inst, {'stage': m[1], 'name': m[2]})
@@ -644,9 +847,43 @@ class LiveFiles(object):
         elif os.path.lexists(p):
             os.remove(p)
 
+    def execute(self, m):
+        """n more executions of a repeating producer, as RepeatingEngine ends each of them: the task has written
+        out.stdout / out.stderr, then the real experiment.runtime.engine.archive_stream archives both"""
+        import logging
+        import experiment.runtime.engine
+        wd = root_of(self.inst, {'stage': m[1], 'name': m[2]})
+        sd = os.path.join(wd, 'streams')
+        assert sd.startswith(self.inst.tmp + os.sep), sd
+        for p in (sd, os.path.join(wd, 'out.stdout'), os.path.join(wd, 'out.stderr')):
+            if p not in self.saved:
+                if os.path.isdir(p):
+                    tree = {}
+                    for fn in os.listdir(p):
+                        with open(os.path.join(p, fn), newline='') as f:
+                            tree[fn] = f.read()
+                    self.saved[p] = ('T', tree)
+                else:
+                    self.saved[p] = self.state(p)
+        log = logging.getLogger('verif.c10')
+        done = self.done.get(sd, 0)
+        for k in range(done, done + m[4]):
+            with open(os.path.join(wd, 'out.stdout'), 'w', newline='') as f:
+                f.write(executed_text(m[1], m[2], k, m[5]))
+            with open(os.path.join(wd, 'out.stderr'), 'w', newline='') as f:
+                f.write('warn %d\n' % k)
+            experiment.runtime.engine.archive_stream(os.path.join(wd, 'out.stdout'), sd, 'stdout', log, 5)
+            experiment.runtime.engine.archive_stream(os.path.join(wd, 'out.stderr'), sd, 'stderr', log, 5)
+        self.done[sd] = done + m[4]
+        return 'execute'
+
     def apply(self, m):
+        if m[0] == 'execute':
+            return self.execute(m)
         p = self.path(m)
         assert p.startswith(self.inst.tmp + os.sep), p
+        if not os.path.isdir(os.path.dirname(p)):
+            return 'skipped'
         if p not in self.saved:
             st = self.state(p)
             if st[0] == 'D' and st[1]:
@@ -661,14 +898,20 @@ class LiveFiles(object):
         return m[0]
 
     def restore(self):
-        for p, (kind, c) in self.saved.items():
+        for p, (kind, c) in reversed(list(self.saved.items())):
             self.clear(p)
             if kind == 'F':
                 with open(p, 'w', newline='') as f:
                     f.write(c)
             elif kind == 'D':
                 os.makedirs(p)
+            elif kind == 'T':
+                os.makedirs(p)
+                for fn, txt in c.items():
+                    with open(os.path.join(p, fn), 'w', newline='') as f:
+                        f.write(txt)
         self.saved = {}
+        self.done = {}
 
 
 def live_value(inst, r):
@@ -676,6 +919,12 @@ def live_value(inst, r):
     root = root_of(inst, r)
     if r['method'] == 'output':
         p = os.path.join(root, target_of(r)) if target_of(r) else root
+        if is_stream_ref(r):
+            sd = os.path.join(root, 'streams')
+            fn = latest_stream(os.listdir(sd) if os.path.isdir(sd) else [])
+            if fn is None:
+                return ''
+            p = os.path.join(sd, fn)
         if os.path.isdir(p):
             return None
         if not os.path.isfile(p):
@@ -752,6 +1001,8 @@ def explore_live(ctx, cases):
             ctx.count('live_answer_changes', changes)
             if any(r['method'] == 'output' and r['stage'] != case['stage'] for r in case['declared']):
                 ctx.count('live_cases_output_of_other_stage_or_input_file')
+            if any(is_stream_ref(r) for r in case['declared']):
+                ctx.count('live_cases_stdout_of_a_repeating_producer')
     finally:
         inst.close()
     t1 = time.time()
@@ -828,6 +1079,8 @@ def judge(ctx, case, obs):
     ctx.count('tokens_%d' % min(ntok, 8))
     for c in cls:
         ctx.count('class_' + c)
+    if any(r['method'] == 'output' and not r['file'] and (r['stage'], r['name']) in REPEATING for r in dec):
+        ctx.count('reads_stdout_of_a_repeating_producer')
     if not cls:
         ctx.count('outside_all_finding_classes')
     # (Python mirror of the extra hypotheses of C10_unused / C10_unresolved; the Coq checkers decide)
@@ -923,6 +1176,10 @@ def run(ctx):
     ctx.count('special_contents_cases', len(sp))
     for b in sp:
         cases.extend(with_orders(b))
+    sc = stream_cases()
+    ctx.count('repeating_producer_stream_cases', len(sc))
+    for b in sc:
+        cases.extend(with_orders(b))
     ctx.exhaustive = False
     explore(ctx, cases)
     live = live_corpus() + [gen_live_case(rng) for _ in range(110 if ctx.tier == 'quick' else 700)]
@@ -940,7 +1197,9 @@ def replay(ctx, path):
     if not c or 'declared' not in c:
         print('replay file names no input (proof/correspondence obligation): re-run ./check C10')
         return 2
-    if 'live' in c:
+    if 'streams' in c:
+        explore_values(ctx, {})
+    elif 'live' in c:
         explore_live(ctx, [c])
     else:
         explore(ctx, [c])
